@@ -61,6 +61,35 @@ func sourceLocals(fn *ssa.Function) map[string]string {
 	return out
 }
 
+// localRoles classifies each named source variable: "phi" if some reference to it reads a value merged at a
+// join (a loop-carried or branch-merged variable), "addr" if it lives in memory, "val" otherwise. Used only to
+// choose between several rename candidates of the same type.
+func localRoles(fn *ssa.Function) map[string]string {
+	out := map[string]string{}
+	for _, b := range fn.Blocks {
+		for _, ins := range b.Instrs {
+			dr, ok := ins.(*ssa.DebugRef)
+			if !ok {
+				continue
+			}
+			id := identOf(dr)
+			if id == "" || id == "_" {
+				continue
+			}
+			role := "val"
+			if dr.IsAddr {
+				role = "addr"
+			} else if _, isPhi := dr.X.(*ssa.Phi); isPhi {
+				role = "phi"
+			}
+			if cur, seen := out[id]; !seen || (cur == "val" && role != "val") {
+				out[id] = role
+			}
+		}
+	}
+	return out
+}
+
 // contractNames returns the identifiers a contract mentions in invariants and postconditions.
 func contractNames(sp *FuncSpec) map[string]bool {
 	ids := map[string]bool{}
@@ -94,6 +123,12 @@ func (u *Unit) computeAliases(key string) map[string]string {
 	rec := u.eng.localTypes[key]
 	recAll := u.eng.localTypes[key+"#all"] // every local the function had on the unchanged tree
 	u.allLocals = locals
+	roles := localRoles(u.fn)
+	u.localRoles = map[string]string{}
+	for id := range locals {
+		u.localRoles[id] = roles[id]
+	}
+	recRoles := u.eng.localTypes[key+"#roles"]
 	var gone []string
 	for id := range rec {
 		if _, still := locals[id]; !still && named[id] {
@@ -119,10 +154,22 @@ func (u *Unit) computeAliases(key string) map[string]string {
 				}
 			}
 		}
+		if len(cands) > 1 && recRoles[old] != "" {
+			// several new locals of the type: keep those that play the role the old one played
+			var same []string
+			for _, id := range cands {
+				if roles[id] == recRoles[old] {
+					same = append(same, id)
+				}
+			}
+			if len(same) == 1 {
+				cands = same
+			}
+		}
 		if len(cands) == 1 {
 			u.aliases[old] = cands[0]
 			taken[cands[0]] = true
-			u.c.Note("rename tolerance: local " + old + " named by the contract no longer exists; bound to " + cands[0] + " (the only new local of type " + rec[old] + ")")
+			u.c.Note("rename tolerance: local " + old + " named by the contract no longer exists; bound to " + cands[0] + " (the only new local with that role of type " + rec[old] + ")")
 		}
 	}
 	return used
